@@ -212,6 +212,16 @@ class Pkg:
         self._mro_cache = {}
         self._rel_cache = {}
         self._root_cache = {}
+        self._calls_by_name = {}
+        for tree in trees.values():
+            for n in ast.walk(tree):
+                if isinstance(n, ast.Call):
+                    nm = n.func.id if isinstance(n.func, ast.Name) else (n.func.attr if isinstance(n.func, ast.Attribute) else None)
+                    if nm:
+                        self._calls_by_name.setdefault(nm, []).append(n)
+        self._desugared = {}
+        self._cur_call = None
+        self._cur_call_scope = None
         # names that occur as the callee of some call / as a plain value somewhere in the package
         self.called_names, self.value_names = set(), set()
         for tree in trees.values():
@@ -531,6 +541,9 @@ class Pkg:
                                                  getattr(self._stmt, "lineno", None))
 
     def new_site(self, node, kind, sc, tag=""):
+        spec = getattr(sc, "spec", None)
+        if spec:
+            tag += "@" + ",".join("%s=%s" % kv for kv in sorted(spec.items()))  # sites of an analysis clone are its own
         sid = (sc.relpath, getattr(node, "lineno", 0), getattr(node, "col_offset", 0), kind + tag)
         if sid not in self.site_kind:
             self.site_kind[sid] = kind
@@ -565,6 +578,16 @@ class Pkg:
                         r = join(r, self.elem_of(self.ret_of(f)))
                     if a[1] not in self.classes:
                         r = join(r, TOP)
+        return r
+
+    def loop_order(self, n, sc):
+        """order source of the for-loops (over sets / sequences in set order) that syntactically enclose n"""
+        r = BOT
+        p = getattr(n, "_parent", None)
+        while p is not None and not isinstance(p, (ast.FunctionDef, ast.AsyncFunctionDef, ast.Lambda, ast.Module)):
+            if isinstance(p, (ast.For, ast.AsyncFor)):
+                r = join(r, self.order_source(self.ev(p.iter, sc)))
+            p = getattr(p, "_parent", None)
         return r
 
     def order_source(self, t):
@@ -754,7 +777,65 @@ class Pkg:
             for p in params[len(pos):]:
                 self.upd(self.env, (fs.id, p), TOP)
 
+    def name_params(self, fs):
+        """parameters of fs that are used as the attribute name of a getattr() in its body"""
+        r = getattr(fs, "_name_params", None)
+        if r is None:
+            r = []
+            if fs.kind == "func":
+                for x in ast.walk(fs.node):
+                    if isinstance(x, ast.Call) and isinstance(x.func, ast.Name) and x.func.id == "getattr" and len(x.args) >= 2 \
+                            and isinstance(x.args[1], ast.Name) and x.args[1].id in fs.params and x.args[1].id not in r:
+                        r.append(x.args[1].id)
+            fs._name_params = r
+        return r
+
+    def specialise(self, fs):
+        """polyvariance for 'call the method whose name is passed in' helpers: one analysis clone of fs per constant
+        value of its name parameters (otherwise results of unrelated getters would be merged)"""
+        nps = self.name_params(fs)
+        c = self._cur_call
+        if not nps or c is None or getattr(fs, "spec", None):
+            return fs
+        ps = list(fs.params)
+        if getattr(fs, "defcls", None) and not fs.is_static and ps:
+            ps = ps[1:]
+        spec = []
+        csc = self.scope_of_expr(c)
+        for p in nps:
+            arg = None
+            if p in ps:
+                i = ps.index(p)
+                if i < len(c.args) and not any(isinstance(x, ast.Starred) for x in c.args[: i + 1]):
+                    arg = c.args[i]
+            for k in c.keywords:
+                if k.arg == p:
+                    arg = k.value
+            vals = self.const_strings(arg, self._cur_call_scope or csc) if arg is not None else None
+            if not vals or len(vals) != 1:
+                return fs
+            spec.append((p, next(iter(vals))))
+        key = tuple(spec)
+        clones = fs.__dict__.setdefault("clones", {})
+        cl = clones.get(key)
+        if cl is None:
+            self._nscope += 1
+            cl = Scope(self._nscope, fs.kind, fs.node, fs.parent, fs.relpath, fs.cls, fs.qualname)
+            for a in ("bound", "params", "vararg", "kwarg", "is_gen", "is_static", "is_property", "declared_free"):
+                setattr(cl, a, getattr(fs, a))
+            for a in ("kwonly", "defcls", "nested", "is_classmethod", "is_setter"):
+                if hasattr(fs, a):
+                    setattr(cl, a, getattr(fs, a))
+            cl.spec = dict(spec)
+            cl._name_params = nps
+            clones[key] = cl
+            self.scopes[cl.id] = cl
+            self._dirty.add(cl.id)
+            self.changed = True
+        return cl
+
     def call_scope(self, fs, pos, kws, self_t=None, star=False):
+        fs = self.specialise(fs)
         self.bind_call(fs, pos, kws, self_t, star)
         return self.ret_of(fs)
 
@@ -764,8 +845,115 @@ class Pkg:
             self.bind_call(f, pos, kws, me, star)
         return me
 
+    # ---- dynamic attribute access with statically known names -------------------------------
+    def const_strings(self, e, sc, _d=0):
+        """the set of string constants an expression can evaluate to, or None if unknown.
+        Parameters are resolved through every call of the function inside the package."""
+        if _d > 3:
+            return None
+        if isinstance(e, ast.Constant):
+            return {e.value} if isinstance(e.value, str) else None
+        if isinstance(e, ast.IfExp):
+            a, b = self.const_strings(e.body, sc, _d + 1), self.const_strings(e.orelse, sc, _d + 1)
+            return a | b if a is not None and b is not None else None
+        if isinstance(e, ast.Name):
+            fs = sc
+            while fs is not None and fs.kind == "lambda" and e.id not in fs.bound:
+                fs = fs.parent
+            spec = getattr(fs, "spec", None) if fs is not None else None
+            if spec and e.id in spec:
+                return {spec[e.id]}
+            if fs is not None and fs.kind in ("func", "lambda") and e.id in fs.params:
+                # must not be re-assigned inside the function
+                for x in ast.walk(fs.node):
+                    if isinstance(x, ast.Name) and x.id == e.id and isinstance(x.ctx, ast.Store):
+                        return None
+                if fs.kind != "func":
+                    return None
+                ps = list(fs.params)
+                if getattr(fs, "defcls", None) and not fs.is_static and ps:
+                    ps = ps[1:]
+                if e.id not in ps:
+                    return None
+                i = ps.index(e.id)
+                out = set()
+                a = fs.node.args
+                pos = a.posonlyargs + a.args
+                dflt = dict(zip([x.arg for x in pos[len(pos) - len(a.defaults):]], a.defaults))
+                calls = self._calls_by_name.get(fs.node.name, [])
+                if not calls or fs.node.name in self.value_names:
+                    return None
+                for c in calls:
+                    arg = None
+                    if i < len(c.args) and not any(isinstance(x, ast.Starred) for x in c.args[: i + 1]):
+                        arg = c.args[i]
+                    for k in c.keywords:
+                        if k.arg == e.id:
+                            arg = k.value
+                        if k.arg is None:
+                            return None
+                    if arg is None:
+                        arg = dflt.get(e.id)
+                    if arg is None:
+                        return None
+                    csc = self.scope_of_expr(c)
+                    r = self.const_strings(arg, csc, _d + 1) if csc is not None else None
+                    if r is None:
+                        return None
+                    out |= r
+                return out
+            ms = self._module_scope[sc.relpath]
+            owner = self.owner_scope(e.id, sc)
+            if owner is ms:
+                vals = [st.value for st in ms.node.body if isinstance(st, ast.Assign)
+                        and any(isinstance(t, ast.Name) and t.id == e.id for t in st.targets)]
+                if len(vals) == 1:
+                    return self.const_strings(vals[0], ms, _d + 1)
+        return None
+
+    def scope_of_expr(self, n):
+        p = n
+        while p is not None:
+            s = self.scope_of_node.get(id(p))
+            if s is not None and (isinstance(p, (ast.FunctionDef, ast.AsyncFunctionDef, ast.Lambda, ast.Module))):
+                return s
+            p = getattr(p, "_parent", None)
+        return None
+
+    def desugar(self, n, sc):
+        """`getattr(recv, NAME)(args)` with NAME one of a known set of constants -> [recv.n1(args), recv.n2(args), ...]"""
+        f = n.func
+        if not (isinstance(f, ast.Call) and isinstance(f.func, ast.Name) and f.func.id == "getattr" and len(f.args) == 2
+                and not f.keywords and self.lookup("getattr", sc) == TOP):
+            return None
+        key = (id(n), sc.id)
+        if key in self._desugared:
+            return self._desugared[key]
+        names = self.const_strings(f.args[1], sc)
+        out = None
+        if names:
+            out = []
+            for nm in sorted(names):
+                attr = ast.Attribute(value=f.args[0], attr=nm, ctx=ast.Load())
+                call = ast.Call(func=attr, args=n.args, keywords=n.keywords)
+                for x in (attr, call):
+                    ast.copy_location(x, n)
+                attr._parent = call
+                call._parent = getattr(n, "_parent", None)
+                out.append(call)
+        self._desugared[key] = out
+        return out
+
     def callees(self, n, sc):
         """package scopes a call may invoke: list of (Scope, receiver expr|None, bind_self: bool)"""
+        ds = self.desugar(n, sc)
+        if ds:
+            out = []
+            for c in ds:
+                for x in self.callees(c, sc):
+                    if not any(x[0] is y[0] for y in out):
+                        out.append(x)
+            return out
         f = n.func
         out = []
         if isinstance(f, ast.Name):
@@ -828,6 +1016,16 @@ class Pkg:
         return self.env.get((m.id, m.params[0]), BOT)
 
     def ev_call(self, n, sc):
+        ds = self.desugar(n, sc)
+        if ds:
+            return joins([self.ev_call(c, sc) for c in ds])
+        prev = (self._cur_call, self._cur_call_scope)
+        try:
+            return self._ev_call(n, sc)
+        finally:
+            self._cur_call, self._cur_call_scope = prev
+
+    def _ev_call(self, n, sc):
         f = n.func
         pos, star = [], False
         for a in n.args:
@@ -841,6 +1039,7 @@ class Pkg:
             kws[k.arg] = self.ev(k.value, sc)
             if k.arg is None:
                 star = True
+        self._cur_call, self._cur_call_scope = n, sc
         if isinstance(f, ast.Name):
             t = self.lookup(f.id, sc)
             marker = [a for a in t if isinstance(a, tuple) and a[0] in ("func", "cls")]
@@ -962,11 +1161,14 @@ class Pkg:
         a1 = pos[1] if len(pos) > 1 else BOT
         me = self.site_ty(sid)
         if k == "list":
+            if m in ("append", "extend", "insert"):
+                self.upd(self.unord, sid, self.loop_order(n, sc))
             if m == "append":
                 self.upd(self.elem, sid, a0)
                 return NONE
             if m == "extend":
                 self.upd(self.elem, sid, self.elem_of(a0))
+                self.carry(sid, a0)
                 return NONE
             if m == "insert":
                 self.upd(self.elem, sid, a1)
@@ -1146,6 +1348,11 @@ class Pkg:
             return r
         if name == "print":
             return NONE
+        if name == "getattr" and len(n.args) >= 2:
+            names = self.const_strings(n.args[1], sc)
+            if names:
+                r = joins([self.load_attr(a0, nm) for nm in sorted(names)])
+                return join(r, pos[2]) if len(pos) > 2 else r
         return TOP
 
     # -------------------------------------------------------------- expressions
@@ -1623,7 +1830,7 @@ class Pkg:
             self._dirty = set(self.scopes)
             while self._dirty:
                 self.passes += 1
-                todo = [sc for sc in order if sc.id in self._dirty]
+                todo = [self.scopes[i] for i in sorted(self._dirty) if i in self.scopes]
                 self._dirty = set()
                 for sc in todo:
                     runs[sc.id] = runs.get(sc.id, 0) + 1
@@ -1633,7 +1840,7 @@ class Pkg:
             if phase == 1:
                 # parameters no call inside the package ever binds are unknown (entry points)
                 for sc in order:
-                    if sc.kind in ("func", "lambda"):
+                    if sc.kind in ("func", "lambda") and not getattr(sc, "spec", None):
                         ps = list(sc.params)
                         if getattr(sc, "defcls", None) and not sc.is_static and ps:
                             ps = ps[1:]
@@ -1752,6 +1959,7 @@ ACI_FOLDS = {
     # function name -> why folding a set with it does not depend on the order of the elements
     "common_dom": "nearest common dominator: the meet of the dominator tree (associative, commutative, idempotent)",
     "min": "minimum of a total order", "max": "maximum of a total order",
+    "min/max": "running minimum/maximum of a value", "sum": "sum of numbers", "bit-or/and": "bitwise accumulation",
 }
 READONLY_CONTAINER = {"get", "items", "keys", "values", "copy", "index", "count", "union", "intersection", "difference",
                       "symmetric_difference", "issubset", "issuperset", "isdisjoint", "__contains__", "most_common"}
@@ -1870,6 +2078,12 @@ class Effects:
     def call_kind(self, c, fs):
         """-> list of ('mut', kind, receiver_expr) | ('pkg', [(scope, recv, bindself)]) | ('pure',) | ('unknown', text)"""
         pkg = self.pkg
+        ds = pkg.desugar(c, fs)
+        if ds:
+            out = []
+            for x in ds:
+                out += self.call_kind(x, fs)
+            return out
         f = c.func
         if isinstance(f, ast.Attribute):
             base = f.value
@@ -2138,6 +2352,12 @@ class Classifier:
         r.relpath, r.qualname, r.lineno = sc.relpath, sc.qualname, getattr(n, "lineno", 0)
         r.expr = norm_src(n)[:100]
         seq = not pkg.sites(t, "set")
+        if seq and isinstance(n, ast.Name):
+            why0 = self.sorted_before(n, sc)
+            if why0:
+                r.kind, r.cats, r.elem, r.issues = "int", set(), "sorted", []
+                r.verdict, r.reason, r.construct = INSENS, why0, norm_src(n)
+                return r
         if seq:
             et = joins(dict.get(pkg.unord, s, BOT) for s in self.carriers(t))
             r.cats = pkg.categories(et)
@@ -2162,6 +2382,38 @@ class Classifier:
         r.verdict, r.reason = v, why
         r.construct = norm_src(construct)[:300]
         return r
+
+    def sorted_before(self, name, sc):
+        """`name` is a local list that is sorted in place with an injective key by a statement dominating this use"""
+        fs = self.func_scope(sc)
+        if fs is None or sc is not fs or name.id not in fs.bound or name.id in fs.params:
+            return None
+        use = name
+        while use is not None and not isinstance(use, ast.stmt):
+            use = getattr(use, "_parent", None)
+        cfg = self.cfg_of(fs)
+        if use is None or use not in cfg.g:
+            return None
+        for st in _walk_no_nested(list(fs.node.body)):
+            if isinstance(st, ast.Expr) and isinstance(st.value, ast.Call) and isinstance(st.value.func, ast.Attribute) \
+                    and st.value.func.attr == "sort" and isinstance(st.value.func.value, ast.Name) and st.value.func.value.id == name.id \
+                    and st is not use and st in cfg.g and cfg.dominates(st, use):
+                # nothing may append to the list between the sort and the use
+                muts = [m for m in _walk_no_nested(list(fs.node.body)) if isinstance(m, ast.Call) and isinstance(m.func, ast.Attribute)
+                        and isinstance(m.func.value, ast.Name) and m.func.value.id == name.id and m.func.attr in LIST_ORDERED]
+                rebinds = [m for m in _walk_no_nested(list(fs.node.body)) if isinstance(m, ast.Name) and m.id == name.id
+                           and isinstance(m.ctx, ast.Store)]
+                def stmt_of(x):
+                    while x is not None and not isinstance(x, ast.stmt):
+                        x = getattr(x, "_parent", None)
+                    return x
+                late = [m for m in muts + rebinds if stmt_of(m) in cfg.g and cfg.reachable(st, stmt_of(m)) and stmt_of(m) is not st]
+                if late:
+                    continue
+                ok, txt = self.key_verdict(st.value, sc, self.seq_elem_cats(name, sc))
+                if ok:
+                    return "sorted in place before this use (%s)" % txt
+        return None
 
     # ------------------------------------------------------------- key functions
     def module_value(self, name, relpath, _d=0):
@@ -2377,8 +2629,21 @@ class Classifier:
             m = p.attr
             if isinstance(gp, ast.Call) and gp.func is p:
                 if seq:
-                    if m in ("index", "count", "copy"):
-                        return (INSENS if m == "count" else SENS), "sequence method %s()" % m, gp
+                    if m in ("count", "__contains__", "__len__"):
+                        return INSENS, "sequence method %s()" % m, gp
+                    if m == "copy":
+                        return self.consumption(gp, sc, True, depth + 1)
+                    if m == "sort":
+                        ok, txt = self.key_verdict(gp, sc, self.seq_elem_cats(node, sc))
+                        if any(k.arg == "reverse" for k in gp.keywords) or gp.args:
+                            pass
+                        if ok:
+                            return INSENS, "sorted in place: %s" % txt, gp
+                        if ok is False:
+                            return SENS, "sort(): %s" % txt, gp
+                        return UNDET, "sort(): %s" % txt, gp
+                    if m in LIST_ORDERED or m in ("remove", "clear", "reverse"):
+                        return INSENS, "mutation of the list itself (the loop that does it is classified separately)", gp
                     return SENS, "sequence method %s() on a sequence in set order" % m, gp
                 if m in SET_MUTATORS or m in SET_PRED or m == "__contains__":
                     return INSENS, "set %s()" % m, gp
@@ -2696,6 +2961,11 @@ class Classifier:
                     continue
                 tgts = st.targets if isinstance(st, ast.Assign) else [st.target]
                 fold = self.fold_of(st, fs) if isinstance(st, ast.Assign) else self.aug_fold(st, fs)
+                if fold == "?":
+                    effect(UNDET, "%s: cannot tell whether the augmented assignment is a numeric accumulation or a concatenation" % norm_src(st)[:60])
+                    continue
+                if fold is None and isinstance(st, ast.Assign):
+                    fold = self.extremum_fold(st)
                 for t in tgts:
                     for ft in _flat_targets(t):
                         if isinstance(ft, ast.Name):
@@ -2755,6 +3025,33 @@ class Classifier:
         if early and nonflag_effect[0] and not any(i[0] == SENS for i in issues):
             effect(SENS, "early exit (%s) leaves the per-element effects applied to an order-dependent subset" % early[0].__class__.__name__.lower())
 
+    def extremum_fold(self, st):
+        """`if E < v: v = E` (running minimum/maximum of a value) or `if x.num < v.num: v = x` (arg-min/max by an
+        injective key): the final value does not depend on the order of the elements"""
+        if len(st.targets) != 1 or not isinstance(st.targets[0], ast.Name):
+            return None
+        v = st.targets[0].id
+        par = getattr(st, "_parent", None)
+        if not isinstance(par, ast.If) or st not in par.body:
+            return None
+        pairs = []
+        for c in ast.walk(par.test):
+            if isinstance(c, ast.Compare):
+                items = [c.left] + list(c.comparators)
+                for (l, op, r) in zip(items, c.ops, items[1:]):
+                    if isinstance(op, (ast.Lt, ast.LtE, ast.Gt, ast.GtE)):
+                        pairs.append((l, r))
+        val = ast.dump(st.value)
+        for l, r in pairs:
+            for a, b in ((l, r), (r, l)):
+                if ast.dump(a) == val and isinstance(b, ast.Name) and b.id == v:
+                    return "min/max"
+                if isinstance(st.value, ast.Name) and isinstance(a, ast.Attribute) and isinstance(b, ast.Attribute) \
+                        and a.attr == b.attr and a.attr in INJECTIVE_ATTRS and isinstance(a.value, ast.Name) and isinstance(b.value, ast.Name) \
+                        and a.value.id == st.value.id and b.value.id == v:
+                    return "arg-min/max by .%s" % a.attr
+        return None
+
     def aug_fold(self, st, fs):
         if not isinstance(st, ast.AugAssign):
             return None
@@ -2763,8 +3060,12 @@ class Classifier:
         if isinstance(st.op, (ast.Add, ast.Mult, ast.Sub)):
             t = self.pkg.ev(Pkg._as_load(st.target), fs)
             v = self.pkg.ev(st.value, fs)
-            if t and t <= (INT | NONE) and v and v <= INT:
-                return "sum"
+            seqish = lambda x: "str" in x or any(isinstance(a, tuple) and a[0] in ("site", "tup", "tupv") for a in x)
+            if seqish(t) or seqish(v):
+                return None  # concatenation: ordered
+            if "int" in t or "int" in v:
+                return "sum"  # number (+) anything that is not a sequence: a number (or TypeError)
+            return "?"
         return None
 
     def local_write(self, loop, st, name, value, fold, T, D, fs, body_ids, issues, notes, nonflag, is_for=False):
@@ -2894,7 +3195,7 @@ class Classifier:
         kinds = fx.call_kind(c, fs)
         argdep = any(_names(a) & set(D) for a in list(c.args) + [k.value for k in c.keywords])
 
-        def judge(roots, kind, what):
+        def judge(roots, kind, what, direct=False):
             if not roots:
                 return
             own = all((isinstance(x, tuple) and x[0] == "elem") for x in roots)
@@ -2904,7 +3205,10 @@ class Classifier:
             if kind == "keyed":
                 notes.append("%s: set/dict-keyed update" % what)
             elif kind == "ordered":
-                issues.append((SENS, "%s appends to an ordered container of another object, once per element, in iteration order" % what))
+                if direct and roots and all(x == "local" for x in roots):
+                    notes.append("%s accumulates into a list local to this function (it carries the set order; its uses are classified)" % what)
+                else:
+                    issues.append((SENS, "%s appends to an ordered container of another object, once per element, in iteration order" % what))
             elif kind == "attr":
                 if argdep or (isinstance(c.func, ast.Attribute) and _names(c.func.value) & set(D)):
                     issues.append((SENS, "%s rebinds an attribute of another object from element-dependent arguments (last writer wins)" % what))
@@ -2921,7 +3225,9 @@ class Classifier:
                 if isinstance(recv, ast.Name) and recv.id == "print":
                     issues.append((SENS, "print() inside the loop"))
                     continue
-                judge(fx.roots(recv, fs, T), k[1], "%s()" % norm_src(c.func)[:50])
+                direct = isinstance(c.func, ast.Attribute) and c.func.attr in ("append", "extend", "insert") \
+                    and isinstance(recv, ast.Name) and bool(self.pkg.sites(self.pkg.ev(recv, fs), "list"))
+                judge(fx.roots(recv, fs, T), k[1], "%s()" % norm_src(c.func)[:50], direct)
             elif k[0] == "unknown":
                 issues.append((UNDET, k[1]))
             elif k[0] == "pkg":
